@@ -23,7 +23,7 @@ static HV check06(const C06Case &c) {
   std::vector<uint8_t> want; for (auto &l : c.lines) { auto b = solo(l, c.combo); if (b.empty()) return bad("harness", "line does not assemble alone: " + l); want.insert(want.end(), b.begin(), b.end()); }
   size_t n = c.start + want.size() + 64; if (n < 64) n = 64;
   std::vector<uint8_t> first;
-  for (int rep = 0; rep < 3; rep++) {
+  for (int rep = 0; rep < 4; rep++) {
     std::vector<uint8_t> buf(n); fill(buf, (c.prefill + rep) % 3, 77 + rep);
     std::vector<uint8_t> before = buf;
     assemblyline_t a = asm_create_instance(buf.data(), (int)n);
@@ -33,6 +33,12 @@ static HV check06(const C06Case &c) {
     // split at the cut positions (line indices) into successive calls
     size_t li = 0; std::vector<int> cuts = c.cuts; std::sort(cuts.begin(), cuts.end()); cuts.push_back((int)c.lines.size());
     int rc = 0; int ncall = rep;
+    if (rep == 3) { // fed line by line by a caller that cuts its copy of the text with strtok (the library is handed one token at a time)
+      std::string all; for (size_t k = 0; k < c.lines.size(); k++) { if (c.noise && (k % 3) == 0) all += std::string("; comment") + NL; all += c.lines[k] + NL; }
+      std::vector<char> copy(all.begin(), all.end()); copy.push_back(0);
+      for (char *tok = strtok(copy.data(), "\r\n"); tok && rc == 0; tok = strtok(nullptr, "\r\n")) rc = asm_assemble_str(a, tok);
+      cuts.clear();
+    }
     for (int cut : cuts) {
       if (cut <= (int)li && cut != (int)c.lines.size()) continue; if ((size_t)cut > c.lines.size()) cut = (int)c.lines.size();
       std::string chunk; for (; li < (size_t)cut; li++) { if (c.noise && (li % 3) == 0) chunk += li % 2 ? std::string("; comment") + NL : std::string(NL) + "label_x:" + NL; chunk += c.lines[li] + NL; }
@@ -66,6 +72,27 @@ void prop_c06(hz::Ctx &ctx) {
       ctx.cls("part:ordered-pairs"); ctx.nontrivial(std::to_string(R[i]) + "," + std::to_string(R[j]));
       HV v = check06(c);
       if (ctx.want_sample()) ctx.put_sample("pair \"" + c.lines[0] + "\" ; \"" + c.lines[1] + "\" start " + std::to_string(c.start) + (c.cuts.empty() ? ", one call" : ", two calls") + " -> " + (v.ok ? "concatenation" : v.symptom));
+      if (!v.ok) ctx.fail(fail06(c, v));
+    }
+  }
+  // (1c) lines whose filtered text fills the parser's line window (95..99 characters), alone / first / in the middle / last, with each line end
+  {
+    std::vector<std::string> edge;
+    for (int target = 95; target <= 99; target++) for (int host = 0; host < 3; host++) {
+      std::string head = host == 0 ? "mov rax, 0x" : host == 1 ? "add qword [rbx+rcx*8+0x" : "lea r10, [rbx+0x", tail = host == 0 ? "5" : host == 1 ? "10], 7" : "20]";
+      size_t flt = 0; bool sp = false; for (char ch : head + tail) { if (ch != ' ') flt++; else if (!sp) { flt++; sp = true; } }
+      edge.push_back(head + std::string(target - flt, '0') + tail);
+    }
+    const std::string &o1 = P.lines[ctx.seed % P.lines.size()], &o2 = P.lines[(ctx.seed * 7 + 3) % P.lines.size()];
+    for (size_t e = 0; e < edge.size(); e++) for (int sep = 0; sep < 3; sep++) for (int shape = 0; shape < 4; shape++) for (int cutv = 0; cutv < 2; cutv++) {
+      if (!ctx.take()) continue;
+      C06Case c; c.sep = sep; c.combo = (int)((e + sep + shape + ctx.seed) % 12); c.start = (int)((e * 5 + shape) % 3 == 0 ? 40 + e : 0); c.prefill = (int)(e % 3);
+      c.lines = shape == 0 ? std::vector<std::string>{edge[e]} : shape == 1 ? std::vector<std::string>{edge[e], o1} : shape == 2 ? std::vector<std::string>{o1, edge[e], o2} : std::vector<std::string>{o2, edge[(e + 1) % edge.size()], edge[e]};
+      if (cutv && c.lines.size() > 1) c.cuts = {1}; c.noise = (e + shape) % 4 == 0;
+      std::string id = ser06(c); if (!ctx.begin(id, join(c.lines, "\\n").substr(0, 300))) continue;
+      ctx.cls("part:window-filling-lines"); ctx.cls(sep == 0 ? "newline:lf" : sep == 1 ? "newline:crlf" : "newline:cr"); ctx.nontrivial(id);
+      HV v = check06(c);
+      if (ctx.want_sample()) ctx.put_sample("line of " + std::to_string(95 + e / 3) + " filtered characters, " + (sep == 0 ? "LF" : sep == 1 ? "CRLF" : "CR") + ", " + std::to_string(c.lines.size()) + " line(s) -> " + (v.ok ? "concatenation" : v.symptom));
       if (!v.ok) ctx.fail(fail06(c, v));
     }
   }
@@ -305,17 +332,22 @@ static void model_apply(Model &m, int setter, int v) {
     case 4: if (v == 0 || v == 1) { m.mov = v; m.swap = v; m.nobase = v; } else if (v == 2) m.mov = 2; break;
   }
 }
+static const char *SRC12[] = {"nop\n", "definitely not an instruction\n", "mov rax, 0x7fffffff\nadd rax, zzz\n", "mov rax, 0x000000007fffffff\nlea r15, [rax+rsp]\nlea r15, [2*rax]\n"};
 static void real_apply(assemblyline_t a, int setter, int v) {
   enum asm_opt o = (enum asm_opt)v;
+  // 5..7: assemble calls - they are no setters and change no option, whether they succeed or fail
+  if (setter >= 5) { const char *src = SRC12[(unsigned)v % 4]; asm_set_offset(a, 0);
+    if (setter == 5) assemble_str(a, src); else if (setter == 6) asm_assemble_str(a, src); else { std::string t = src; std::vector<char> w(t.begin(), t.end()); w.push_back(0); int cnt = 0; if (v & 4) assemble_string_counting_chunks(a, w.data(), 16, &cnt); else asm_assemble_string_counting_chunks(a, w.data(), 16, &cnt); }
+    asm_set_offset(a, 0); return; }
   switch (setter) { case 0: asm_mov_imm(a, o); break; case 1: asm_sib_index_base_swap(a, o); break; case 2: asm_sib_no_base(a, o); break; case 3: asm_sib(a, o); break; case 4: asm_set_all(a, o); break; }
 }
-static const char *SETTER[] = {"asm_mov_imm", "asm_sib_index_base_swap", "asm_sib_no_base", "asm_sib", "asm_set_all"};
+static const char *SETTER[] = {"asm_mov_imm", "asm_sib_index_base_swap", "asm_sib_no_base", "asm_sib", "asm_set_all", "assemble_str", "asm_assemble_str", "asm_assemble_string_counting_chunks"};
 static std::string valname(int v) { return v == 0 ? "STRICT" : v == 1 ? "NASM" : v == 2 ? "SMART" : std::to_string(v); }
 struct Obs { int mov = -1, swap = -1, nobase = -1; std::string err; };
 // observe the effective options of an instance through probe lines (classified with the decoder)
-static Obs observe(assemblyline_t a, uint8_t *buf) {
+static Obs observe(assemblyline_t a, uint8_t *buf, bool alias = false) {
   Obs o; int saved = asm_get_offset(a);
-  auto probe = [&](const char *line, x86::Insn &I) { asm_set_offset(a, 0); if (asm_assemble_str(a, line) != 0) { o.err = std::string("probe failed: ") + line; return false; } int n = asm_get_offset(a); I = x86::decode(buf, n); if (!I.ok) { o.err = std::string("probe undecodable: ") + line; return false; } return true; };
+  auto probe = [&](const char *line, x86::Insn &I) { asm_set_offset(a, 0); if ((alias ? assemble_str(a, line) : asm_assemble_str(a, line)) != 0) { o.err = std::string("probe failed: ") + line; return false; } int n = asm_get_offset(a); I = x86::decode(buf, n); if (!I.ok) { o.err = std::string("probe undecodable: ") + line; return false; } return true; };
   x86::Insn a1, a2, s1, n1;
   if (probe("mov rax, 0x7fffffff", a1) && probe("mov rax, 0x000000007fffffff", a2) && probe("lea r15, [rax+rsp]", s1) && probe("lea r15, [2*rax]", n1)) {
     bool nar1 = a1.ops[0].width == 32, nar2 = a2.ops[0].width == 32;
@@ -329,14 +361,14 @@ static Obs observe(assemblyline_t a, uint8_t *buf) {
 struct SetCmd { int inst, setter, value; };
 static std::string ser12(const std::vector<SetCmd> &h, int ninst) { std::string s = "C12|" + std::to_string(ninst); for (auto &c : h) s += "|" + std::to_string(c.inst) + ":" + std::to_string(c.setter) + ":" + std::to_string(c.value); return s; }
 static bool parse12(const std::string &s, std::vector<SetCmd> &h, int &ninst) { auto f = split(s, '|'); if (f.size() < 2 || f[0] != "C12") return false; ninst = atoi(f[1].c_str()); for (size_t i = 2; i < f.size(); i++) { auto g = split(f[i], ':'); if (g.size() != 3) return false; h.push_back({atoi(g[0].c_str()), atoi(g[1].c_str()), atoi(g[2].c_str())}); } return true; }
-static std::string text12(const std::vector<SetCmd> &h) { std::string s; for (auto &c : h) s += std::string(SETTER[c.setter]) + "(al" + std::to_string(c.inst) + ", " + valname(c.value) + "); "; return s; }
+static std::string text12(const std::vector<SetCmd> &h) { std::string s; for (auto &c : h) s += std::string(SETTER[c.setter]) + "(al" + std::to_string(c.inst) + ", " + (c.setter >= 5 ? "\"" + hz::jesc(SRC12[(unsigned)c.value % 4]) + "\"" : valname(c.value)) + "); "; return s; }
 
 static HV check12(const std::vector<SetCmd> &h, int ninst) {
   HV v; auto bad = [&](const std::string &s, const std::string &d) { v.ok = false; v.symptom = s; v.detail = d; return v; };
   std::vector<std::vector<uint8_t>> bufs(ninst, std::vector<uint8_t>(256, 0)); std::vector<assemblyline_t> as(ninst); std::vector<Model> ms(ninst);
   for (int i = 0; i < ninst; i++) as[i] = asm_create_instance(bufs[i].data(), 256);
   auto verify = [&](const std::string &when) -> bool {
-    for (int i = 0; i < ninst; i++) { Obs o = observe(as[i], bufs[i].data());
+    for (int i = 0; i < ninst; i++) { Obs o = observe(as[i], bufs[i].data(), ((h.size() + i + when.size()) & 3) == 3);
       if (!o.err.empty()) { bad("probe", o.err + " " + when); return false; }
       if (o.mov != ms[i].mov || o.swap != ms[i].swap || o.nobase != ms[i].nobase) { bad("options", "instance " + std::to_string(i) + " " + when + ": behaves as mov=" + valname(o.mov) + " swap=" + valname(o.swap) + " nobase=" + valname(o.nobase) + " ; documented: mov=" + valname(ms[i].mov) + " swap=" + valname(ms[i].swap) + " nobase=" + valname(ms[i].nobase)); return false; } }
     return true; };
@@ -366,14 +398,20 @@ void prop_c12(hz::Ctx &ctx) {
   for (auto &a : alltr) for (auto &b : alltr) for (auto &c : alltr) run({a, b, c}, 1, "part:len3");
   // from every reachable state (12) every single transition (20)
   for (int mv = 0; mv < 3; mv++) for (int sw = 0; sw < 2; sw++) for (int nb = 0; nb < 2; nb++) for (auto &t : alltr) run({{0, 0, mv}, {0, 1, sw}, {0, 2, nb}, t}, 1, "part:state-x-transition");
+  // from every reachable state: an assemble call (deprecated or documented name, succeeding or failing), then nothing / one setter call
+  for (int mv = 0; mv < 3; mv++) for (int sw = 0; sw < 2; sw++) for (int nb = 0; nb < 2; nb++) for (int e = 5; e <= 7; e++) for (int src = 0; src < 8; src++) {
+    if (e != 7 && src >= 4) continue;
+    run({{0, 0, mv}, {0, 1, sw}, {0, 2, nb}, {0, e, src}}, 1, "part:state-x-assemble-call");
+    run({{0, 4, mv}, {0, 3, sw}, {0, 2, nb}, {0, e, src}, {0, (mv + sw + e) % 5, (nb + src) % 3}}, 1, "part:state-x-assemble-call");
+  }
   // random long sequences over 1-3 live instances
   static const int MOREVALS[] = {0, 1, 2, 7, 0, 1, 2, 3, 4, 255, 256, 257, 258, 512, 513, 65536, 65537, -1, -2, 0x7fffffff, (int)0x80000000, 0x100, 0x101};
-  auto gcmd = rc::gen::apply([](int i, int s, int v) { return SetCmd{i, s, MOREVALS[v]}; }, range(0, 3), range(0, 5), range(0, 23));
+  auto gcmd = rc::gen::apply([](int i, int s, int v) { return s >= 5 ? SetCmd{i, 5 + (s - 5) % 3, v % 8} : SetCmd{i, s, MOREVALS[v]}; }, range(0, 3), range(0, 8), range(0, 23));
   auto gen_case = rc::gen::pair(range(1, 4), rc::gen::container<std::vector<SetCmd>>(gcmd));
   rc_rounds(ctx, "C12-sequences", ctx.thorough() ? 1000000 : 150000, 40, [&]() {
     auto pr = *gen_case; int ninst = pr.first; std::vector<SetCmd> h = pr.second; for (auto &c : h) c.inst %= ninst;
     std::string id = ser12(h, ninst); if (!ctx.begin(id, text12(h).substr(0, 300))) return;
-    ctx.cls("part:random"); if (ninst > 1) ctx.cls("instances:several"); if (h.size() >= 2) ctx.nontrivial(id); for (auto &c : h) if (c.value > 2 || c.value < 0) { ctx.cls("value:out-of-range"); break; }
+    ctx.cls("part:random"); if (ninst > 1) ctx.cls("instances:several"); if (h.size() >= 2) ctx.nontrivial(id); for (auto &c : h) if (c.setter < 5 && (c.value > 2 || c.value < 0)) { ctx.cls("value:out-of-range"); break; } for (auto &c : h) if (c.setter >= 5) { ctx.cls("assemble-call-in-between"); break; }
     HV v = check12(h, ninst);
     if (ctx.want_sample()) ctx.put_sample(std::to_string(ninst) + " instance(s): " + text12(h).substr(0, 200) + "-> " + (v.ok ? "as documented" : v.detail));
     if (!v.ok) { hz::Failure f = fail12(h, ninst, v); if (ctx.match_known(f.tags).empty()) { rc_report(f); RC_FAIL(v.detail); } else ctx.fail(f); }
@@ -386,20 +424,23 @@ void showValue(const SetCmd &c, std::ostream &os) { os << SETTER[c.setter] << "(
 struct HCmd { int kind, a, b, c; };
 // kinds: 0 setter(a=setter,b=value) 1 set_chunk(a) 2 set_offset(a) 3 assemble valid(a=seed,b=nlines) 4 assemble failing(a=seed,b=nlines,c=bad position)
 //        5 counting(a=seed,b=nlines,c=chunk) 6 create bystander 7 destroy bystander 8 bystander assembles(a=seed) 9 bystander setter(a,b)
-struct C15Case { std::vector<HCmd> hist; int k = 0; HCmd final{3, 1, 3, 0}; uint64_t poolseed = 1; int n = 16384; /* caller buffer length of both instances */ };
+struct C15Case { std::vector<HCmd> hist; int k = 0; HCmd final{3, 1, 3, 0}; uint64_t poolseed = 1; int n = 16384; /* caller buffer length of both instances; -1: both use the library-managed buffer */ };
 static std::string ser15(const C15Case &c) { std::string s = "C15|" + std::to_string(c.poolseed) + ":" + std::to_string(c.n) + "|" + std::to_string(c.k) + "|" + std::to_string(c.final.kind) + ":" + std::to_string(c.final.a) + ":" + std::to_string(c.final.b) + ":" + std::to_string(c.final.c); for (auto &h : c.hist) s += "|" + std::to_string(h.kind) + ":" + std::to_string(h.a) + ":" + std::to_string(h.b) + ":" + std::to_string(h.c); return s; }
 static bool parse15(const std::string &s, C15Case &c) { auto f = split(s, '|'); if (f.size() < 4 || f[0] != "C15") return false; { auto g = split(f[1], ':'); c.poolseed = strtoull(g[0].c_str(), nullptr, 10); c.n = g.size() > 1 ? atoi(g[1].c_str()) : 16384; } c.k = atoi(f[2].c_str()); auto g = split(f[3], ':'); if (g.size() != 4) return false; c.final = {atoi(g[0].c_str()), atoi(g[1].c_str()), atoi(g[2].c_str()), atoi(g[3].c_str())}; for (size_t i = 4; i < f.size(); i++) { auto q = split(f[i], ':'); if (q.size() != 4) return false; c.hist.push_back({atoi(q[0].c_str()), atoi(q[1].c_str()), atoi(q[2].c_str()), atoi(q[3].c_str())}); } return true; }
+static std::string long_program_for(const Pool &P, int seed) { hz::Rng r((uint64_t)seed * 2654435761ULL + 19); std::string s; int n = 400 + (int)r.below(1800); for (int i = 0; i < n; i++) s += P.lines[r.below(P.lines.size())] + "\n"; return s; }
 static std::string program_for(const Pool &P, int seed, int nlines, int badpos) { hz::Rng r((uint64_t)seed * 2654435761ULL + 17); std::string s; nlines = 1 + (nlines % 12); for (int i = 0; i < nlines; i++) { if (badpos >= 0 && i == badpos % nlines) s += P.bad[r.below(P.bad.size())] + "\n"; s += P.lines[r.below(P.lines.size())] + "\n"; } return s; }
-static const size_t CHUNKS15[] = {0, 1, 2, 3, 8, 16, 17, ((size_t)1 << 32) + 16};
+static const size_t CHUNKS15[] = {0, 1, 2, 3, 8, 16, 17, ((size_t)1 << 32) + 16, 6025, 7000};
+static const int NCH15 = 10;
 static std::string text15(const Pool &P, const HCmd &h) {
   char b[96];
   switch (h.kind) {
     case 0: return std::string(SETTER[h.a % 5]) + "(" + valname(h.b) + ")";
-    case 1: snprintf(b, sizeof b, "asm_set_chunk_size(%zu)", CHUNKS15[h.a % 8]); return b;
+    case 1: snprintf(b, sizeof b, "asm_set_chunk_size(%zu)", CHUNKS15[h.a % NCH15]); return b;
     case 2: snprintf(b, sizeof b, "asm_set_offset(%d)", h.a % 4096); return b;
     case 3: return "asm_assemble_str(<" + std::to_string(1 + h.b % 12) + " valid lines #" + std::to_string(h.a) + ">)";
     case 4: return "asm_assemble_str(<program #" + std::to_string(h.a) + " with a bad line>)";
-    case 5: snprintf(b, sizeof b, "asm_assemble_string_counting_chunks(<program #%d%s>, %d)", h.a, (h.a % 3) == 0 ? " with a bad line" : "", (int)CHUNKS15[h.c % 8]); return b;
+    case 5: snprintf(b, sizeof b, "asm_assemble_string_counting_chunks(<program #%d%s>, %d)", h.a, (h.a % 3) == 0 ? " with a bad line" : "", (int)CHUNKS15[h.c % NCH15]); return b;
+    case 10: return "asm_assemble_str(<long program #" + std::to_string(h.a) + ">)";
     case 6: return "create bystander"; case 7: return "destroy bystander"; case 8: return "bystander assembles"; case 9: return std::string("bystander ") + SETTER[h.a % 5] + "(" + valname(h.b) + ")";
   }
   (void)P; return "?";
@@ -409,29 +450,31 @@ static std::string text15(const Pool &P, const C15Case &c) { std::string s; for 
 struct CallOut { int rc = 0, off = 0, cnt = 0; };
 static CallOut do_call(assemblyline_t a, const Pool &P, const HCmd &h) {
   CallOut o;
-  if (h.kind == 3 || h.kind == 4) { std::string p = program_for(P, h.a, h.b, h.kind == 4 ? h.c : -1); o.rc = asm_assemble_str(a, p.c_str()); }
-  else { std::string p = program_for(P, h.a, h.b, (h.a % 3) == 0 ? h.a : -1); std::vector<char> w(p.begin(), p.end()); w.push_back(0); o.rc = asm_assemble_string_counting_chunks(a, w.data(), (int)CHUNKS15[h.c % 8], &o.cnt); }
+  if (h.kind == 10) { std::string p = long_program_for(P, h.a); o.rc = asm_assemble_str(a, p.c_str()); }
+  else if (h.kind == 3 || h.kind == 4) { std::string p = program_for(P, h.a, h.b, h.kind == 4 ? h.c : -1); o.rc = (h.a % 4 == 2) ? assemble_str(a, p.c_str()) : asm_assemble_str(a, p.c_str()); }
+  else { std::string p = program_for(P, h.a, h.b, (h.a % 3) == 0 ? h.a : -1); std::vector<char> w(p.begin(), p.end()); w.push_back(0); o.rc = asm_assemble_string_counting_chunks(a, w.data(), (int)CHUNKS15[h.c % NCH15], &o.cnt); }
   o.off = asm_get_offset(a); return o;
 }
 static HV check15(const Pool &P, const C15Case &c) {
   HV v; auto bad = [&](const std::string &s, const std::string &d) { v.ok = false; v.symptom = s; v.detail = d; return v; };
-  const int N = c.n;
+  const bool internal = c.n < 0; const int N = internal ? 40000 : c.n;   // the library-managed buffer grows to wherever the offset is set
   /* one spare byte: a NULL buffer pointer would select the library-managed buffer */ std::vector<uint8_t> buf(N + 1, 0xcc), fresh(N + 1, 0xcc); std::vector<std::vector<uint8_t>> obuf(2, std::vector<uint8_t>(4096, 0)); assemblyline_t other[2] = {nullptr, nullptr};
-  assemblyline_t a = asm_create_instance(buf.data(), N), f = asm_create_instance(fresh.data(), N);
+  assemblyline_t a = asm_create_instance(internal ? nullptr : buf.data(), N), f = asm_create_instance(internal ? nullptr : fresh.data(), N);
+  auto code = [&](assemblyline_t x) { return (const uint8_t *)asm_get_code(x); };
   int explicit_off = 0; bool after_failure = false;
   Model mopt; size_t last_chunk = 0;   // the CURRENT options and chunk setting are all the fresh instance gets
   for (auto &h : c.hist) {
     switch (h.kind) {
       case 0: real_apply(a, h.a % 5, h.b); model_apply(mopt, h.a % 5, h.b); break;
-      case 1: asm_set_chunk_size(a, CHUNKS15[h.a % 8]); last_chunk = CHUNKS15[h.a % 8]; break;
+      case 1: asm_set_chunk_size(a, CHUNKS15[h.a % NCH15]); last_chunk = CHUNKS15[h.a % NCH15]; break;
       case 2: asm_set_offset(a, h.a % std::min(4096, N + 1)); explicit_off = h.a % std::min(4096, N + 1); after_failure = false; break;
-      case 3: case 4: case 5: {
+      case 3: case 4: case 5: case 10: {
         int start = asm_get_offset(a);
         if (after_failure) { asm_set_offset(a, explicit_off); start = explicit_off; } // the offset after a failed call is unspecified: set it explicitly (C15's premise); C07 covers the unset case
-        if (start < 0 || start > std::min(8000, N)) { asm_set_offset(a, 0); start = 0; }
-        std::vector<uint8_t> before(buf.begin(), buf.begin() + start);
+        if (start < 0 || (!internal && start > std::min(8000, N))) { asm_set_offset(a, 0); start = 0; }
+        std::vector<uint8_t> before(code(a), code(a) + start);
         CallOut o = do_call(a, P, h);
-        if (start > 0 && memcmp(before.data(), buf.data(), start)) { asm_destroy_instance(a); asm_destroy_instance(f); for (auto x : other) if (x) asm_destroy_instance(x); return bad("prefix-touched", "a call modified bytes before its starting offset " + std::to_string(start)); }
+        if (start > 0 && memcmp(before.data(), code(a), start)) { asm_destroy_instance(a); asm_destroy_instance(f); for (auto x : other) if (x) asm_destroy_instance(x); return bad("prefix-touched", "a call modified bytes before its starting offset " + std::to_string(start)); }
         if (h.kind == 4 && o.rc == 0) { /* a bad line must fail: C10's subject; here only consistency matters */ }
         after_failure = o.rc != 0; if (!after_failure) explicit_off = o.off;
         break; }
@@ -451,8 +494,8 @@ static HV check15(const Pool &P, const C15Case &c) {
   if (oa.rc != of.rc) res = bad("return-code", "after the history the final call returned " + std::to_string(oa.rc) + ", on a fresh instance " + std::to_string(of.rc));
   else if (oa.off != of.off) res = bad("offset", "resulting offset " + std::to_string(oa.off) + " vs " + std::to_string(of.off) + " on a fresh instance");
   else if (oa.cnt != of.cnt) res = bad("count", "chunk count " + std::to_string(oa.cnt) + " vs " + std::to_string(of.cnt));
-  else if (oa.rc == 0 && oa.off >= K && oa.off <= N && memcmp(buf.data() + K, fresh.data() + K, oa.off - K)) res = bad("bytes", "bytes of the final call differ from those on a fresh instance");
-  else if (oa.rc == 0 && (oa.off < K || oa.off > N)) res = bad("offset", "resulting offset " + std::to_string(oa.off) + " outside the buffer of " + std::to_string(N) + " bytes");
+  else if (oa.rc == 0 && oa.off >= K && (internal || oa.off <= N) && memcmp(code(a) + K, code(f) + K, oa.off - K)) res = bad("bytes", "bytes of the final call differ from those on a fresh instance");
+  else if (oa.rc == 0 && (oa.off < K || (!internal && oa.off > N))) res = bad("offset", "resulting offset " + std::to_string(oa.off) + " outside the buffer of " + std::to_string(N) + " bytes");
   // the instance must still be usable after everything
   if (res.ok && N >= 20) { asm_set_offset(a, 0); asm_set_chunk_size(a, 0); if (asm_assemble_str(a, "nop\n") != 0 || asm_get_offset(a) != 1) res = bad("unusable", "instance cannot assemble a nop after the history"); }
   asm_destroy_instance(a); asm_destroy_instance(f); for (auto x : other) if (x) asm_destroy_instance(x);
@@ -463,8 +506,8 @@ static hz::Failure fail15(const Pool &P, const C15Case &c, const HV &v) { hz::Fa
 
 static rc::Gen<HCmd> gen_hcmd(bool final_only) {
   static const int V[] = {0, 1, 2, 7};
-  if (final_only) return rc::gen::apply([](int k, int a, int b, int c) { return HCmd{k == 0 ? 3 : k == 1 ? 4 : 5, a, b, c}; }, range(0, 3), range(0, 1000), range(0, 12), range(0, 8));
-  return rc::gen::apply([](int k, int a, int b, int c) { HCmd h{k, a, b, c}; if (k == 0 || k == 9) h.b = V[b & 3]; return h; }, range(0, 10), range(0, 5000), range(0, 12), range(0, 8));
+  if (final_only) return rc::gen::apply([](int k, int a, int b, int c) { return HCmd{k == 0 ? 3 : k == 1 ? 4 : k == 2 ? 5 : 10, a, b, c}; }, range(0, 4), range(0, 1000), range(0, 12), range(0, 10));
+  return rc::gen::apply([](int k, int a, int b, int c) { HCmd h{k, a, b, c}; if (k == 0 || k == 9) h.b = V[b & 3]; return h; }, range(0, 11), range(0, 5000), range(0, 12), range(0, 10));
 }
 void showValue(const HCmd &h, std::ostream &os) { os << "{" << h.kind << "," << h.a << "," << h.b << "," << h.c << "}"; }
 
@@ -473,7 +516,7 @@ void prop_c15(hz::Ctx &ctx) {
   auto run = [&](const C15Case &c, const std::string &part, bool viarc) {
     std::string id = ser15(c); if (!ctx.begin(id, text15(P, c).substr(0, 400))) return;
     ctx.cls(part);
-    bool nt = false; for (auto &h : c.hist) if (h.kind == 4 || h.kind == 5 || h.kind == 6 || h.kind == 7) nt = true; if (nt) ctx.nontrivial(id); if (c.n < 16384) ctx.cls("buffer:small");
+    bool nt = false; for (auto &h : c.hist) if (h.kind == 4 || h.kind == 5 || h.kind == 6 || h.kind == 7) nt = true; if (nt) ctx.nontrivial(id); if (c.n < 0) ctx.cls("buffer:library-managed"); else if (c.n < 16384) ctx.cls("buffer:small"); for (auto &h : c.hist) if (h.kind == 10) { ctx.cls("hist:long-program"); break; }
     for (auto &h : c.hist) { if (h.kind == 4) { ctx.cls("hist:failing-call"); break; } } for (auto &h : c.hist) { if (h.kind == 5) { ctx.cls("hist:counting"); break; } } for (auto &h : c.hist) { if (h.kind == 6) { ctx.cls("hist:bystander"); break; } }
     HV v = check15(P, c);
     if (ctx.want_sample()) ctx.put_sample(text15(P, c).substr(0, 300) + " -> " + (v.ok ? "same as on a fresh instance" : v.detail));
@@ -481,13 +524,19 @@ void prop_c15(hz::Ctx &ctx) {
   // exhaustive: all histories of length <= 3 over a small alphabet, several final calls
   std::vector<HCmd> alpha = {{0, 0, 0, 0}, {0, 4, 1, 0}, {1, 5, 0, 0}, {1, 0, 0, 0}, {2, 100, 0, 0}, {3, 7, 2, 0}, {4, 8, 2, 1}, {5, 9, 2, 5}, {5, 10, 2, 5}, {5, 10, 2, 0}, {6, 0, 1, 0}, {7, 0, 0, 0}, {8, 0, 0, 0}};
   std::vector<HCmd> finals = {{3, 22, 3, 0}, {4, 22, 3, 1}, {5, 23, 3, 5}};
+  // library-managed buffers: chunk sizes beyond the initial length, a history that grows the buffer or not, offsets just below the boundary, final programs that cross it
+  for (int ch : {8, 9}) for (int grown = 0; grown < 3; grown++) for (int kk : {5990, 5999, 6000, 5900, 0, 6021, 12300, 20000}) for (int fin = 0; fin < 3; fin++) for (int var = 0; var < (ctx.thorough() ? 6 : 2); var++) {
+    if (!ctx.take()) continue; C15Case c; c.n = -1; c.poolseed = ctx.seed; c.k = kk; if (grown) c.hist.push_back({10, 77 + var + grown, 0, 0}); if (grown == 2) c.hist.push_back({4, 5 + var, 2, 1}); c.hist.push_back({1, ch, 0, 0});
+    c.final = fin == 0 ? HCmd{10, 31 + var, 0, 0} : fin == 1 ? HCmd{3, 40 + var, 11, 0} : HCmd{5, 50 + var, 11, ch};
+    run(c, "part:library-managed-buffer", false);
+  }
   std::vector<std::vector<HCmd>> hs{{}};
   for (auto &x : alpha) hs.push_back({x});
   for (auto &x : alpha) for (auto &y : alpha) hs.push_back({x, y});
   for (auto &x : alpha) for (auto &y : alpha) for (auto &z : alpha) hs.push_back({x, y, z});
   for (size_t i = 0; i < hs.size(); i++) for (size_t j = 0; j < finals.size(); j++) { if (!ctx.take()) continue; C15Case c; c.hist = hs[i]; c.final = finals[j]; c.k = (int)((i * 37 + j * 11) % 300); c.poolseed = ctx.seed; if ((i + j) % 4 == 0) c.n = 40 + (int)((i * 7 + j) % 120); run(c, "part:exhaustive-len<=3", false); }
   // random histories (rapidcheck)
-  auto gen_case = rc::gen::apply([&](std::vector<HCmd> h, int k, HCmd fin, int nsel, int nsmall) { C15Case c; c.hist = h; c.k = k; c.final = fin; c.poolseed = ctx.seed; c.n = nsel < 4 ? 16384 : nsmall; return c; }, rc::gen::container<std::vector<HCmd>>(gen_hcmd(false)), range(0, 4096), gen_hcmd(true), range(0, 10), range(0, 400));
+  auto gen_case = rc::gen::apply([&](std::vector<HCmd> h, int k, HCmd fin, int nsel, int nsmall) { C15Case c; c.hist = h; c.k = k; c.final = fin; c.poolseed = ctx.seed; c.n = nsel < 4 ? 16384 : nsel == 9 ? -1 : nsmall; if (c.n < 0) c.k = (k % 5 == 0) ? k * 7 : k % 6001; /* also positions beyond the length of a new library-managed buffer */ return c; }, rc::gen::container<std::vector<HCmd>>(gen_hcmd(false)), range(0, 4096), gen_hcmd(true), range(0, 10), range(0, 400));
   rc_rounds(ctx, "C15-histories", ctx.thorough() ? 1500000 : 200000, 30, [&]() { C15Case c = *gen_case; run(c, "part:random", true); });
 }
 
